@@ -60,11 +60,12 @@ package casket
 //@   pure
 //@ func startServers
 //@   requires inst != nil
-//@   modifies ghost:serversStarted, Instance.servers
+//@   modifies ghost:serversStarted, Instance.servers, E:ServerListener
 //@   ensures serversStarted == old(serversStarted) + 1
 //@ func ValidateAndExecuteDirectives
 //@   modifies Instance.casketfileInput, Instance.context, Instance.OnFirstStartup, Instance.OnStartup, Instance.OnRestart, Instance.OnRestartFailed, Instance.OnShutdown, Instance.OnFinalShutdown, Instance.Storage
 //@   requires inst != nil
+//@   ensures !justValidate ==> (unchanged_except("Instance.OnRestart", inst) && unchanged_except("Instance.OnRestartFailed", inst) && unchanged_except("Instance.OnShutdown", inst))
 
 //@ // the deferred clean-up: a failed start takes the instance out of the process-wide list again (C08)
 //@ func startWithListenerFds$1
@@ -78,8 +79,10 @@ package casket
 //@   loop 1 invariant forall(k, 0, len(instances), instances[k] != nil && instances[k].wg != nil)
 //@   loop 1 invariant 0 <= #i && #i <= len(instances) && instances == old(instances) && forall(k, 0, #i, instances[k] != inst) && held(instancesMu) == old(held(instancesMu)) + 1
 //@ func startWithListenerFds
+//@   ensures [list_entries_stay_live] forall(k, 0, len(instances), instances[k] != nil && instances[k].wg != nil)
 //@   requires inst != nil && inst.wg != nil && nFirst == 0 && nStartup == 0 && serversStarted == 0
-//@   modifies G:github.com/tmpim/casket.instances, E:*github.com/tmpim/casket.Instance, ghost:nFirst, ghost:nStartup, ghost:serversStarted, G:github.com/tmpim/casket.started, Instance
+//@   modifies G:github.com/tmpim/casket.instances, E:*github.com/tmpim/casket.Instance, ghost:nFirst, ghost:nStartup, ghost:serversStarted, G:github.com/tmpim/casket.started, E:ServerListener, Instance.casketfileInput, Instance.context, Instance.OnFirstStartup, Instance.OnStartup, Instance.OnRestart, Instance.OnRestartFailed, Instance.OnShutdown, Instance.OnFinalShutdown, Instance.Storage, Instance.servers
+//@   ensures [only_the_started_instance_gets_callbacks] unchanged_except("Instance.OnRestart", inst) && unchanged_except("Instance.OnRestartFailed", inst) && unchanged_except("Instance.OnShutdown", inst)
 //@   ensures [failed_start_leaves_no_instance] result != nil ==> len(instances) == old(len(instances))
 //@   ensures [successful_start_registers_instance] result == nil ==> len(instances) == old(len(instances)) + 1
 //@   ensures [lock_balance] held(instancesMu) == old(held(instancesMu))
@@ -181,17 +184,23 @@ package casket
 //@ ghost nStart int
 //@ ghost nLive int
 //@ func startWithListenerFds
+//@   ensures_on_panic forall(k, 0, len(instances), instances[k] != nil && instances[k].wg != nil)
+//@   requires forall(k, 0, len(instances), instances[k] != nil && instances[k].wg != nil)
+//@   ensures forall(k, 0, len(instances), instances[k] != nil && instances[k].wg != nil)
+//@   ensures unchanged_except("Instance.OnRestart", inst) && unchanged_except("Instance.OnRestartFailed", inst) && unchanged_except("Instance.OnShutdown", inst)
 //@   requires inst != nil && inst.wg != nil
 //@   may_panic
-//@   modifies ghost:nStart, ghost:nLive
+//@   modifies ghost:nStart, ghost:nLive, G:github.com/tmpim/casket.instances, E:*github.com/tmpim/casket.Instance, G:github.com/tmpim/casket.started, Instance.casketfileInput, Instance.context, Instance.OnFirstStartup, Instance.OnStartup, Instance.OnRestart, Instance.OnRestartFailed, Instance.OnShutdown, Instance.OnFinalShutdown, Instance.Storage
 //@   ensures nStart == old(nStart) + 1
 //@   ensures (result == nil ==> nLive == old(nLive) + 1) && (result != nil ==> nLive == old(nLive))
 //@   ensures_on_panic nStart <= old(nStart) + 1 && nLive == old(nLive)
 //@ // Stop only logs what a server's Stop reports (proved in unit instance_stop): stopping the old instance cannot turn a
 //@ // reload whose successor is already serving into a reported failure
 //@ func (*Instance).Stop
+//@   requires forall(k, 0, len(instances), instances[k] != nil && instances[k].wg != nil)
+//@   ensures forall(k, 0, len(instances), instances[k] != nil && instances[k].wg != nil)
 //@   requires i != nil
-//@   modifies ghost:nStop
+//@   modifies ghost:nStop, G:github.com/tmpim/casket.instances, E:*github.com/tmpim/casket.Instance
 //@   ensures nStop == old(nStop) + 1
 //@   ensures [stop_reports_no_error] result == nil
 //@ extern fmt.Errorf
@@ -211,11 +220,13 @@ package casket
 //@   ensures [receiver_untouched] i == old(i)
 //@   loop 1 invariant 0 <= #i && #i <= len(i.OnRestartFailed) && nFailed == old(nFailed) + #i && i != nil
 //@ func (*Instance).Restart
+//@   requires forall(k, 0, len(instances), instances[k] != nil && instances[k].wg != nil)
+//@   ensures [list_entries_stay_live] forall(k, 0, len(instances), instances[k] != nil && instances[k].wg != nil)
 //@   requires i != nil && i.wg != nil && nRestart == 0 && nFailed == 0 && nShut == 0 && nStop == 0 && nStart == 0 && nLive == 0
-//@   modifies ghost:nRestart, ghost:nFailed, ghost:nShut, ghost:nStop, ghost:nStart, ghost:nLive, ptr:error, ptr:*github.com/tmpim/casket.Instance
+//@   modifies ghost:nRestart, ghost:nFailed, ghost:nShut, ghost:nStop, ghost:nStart, ghost:nLive, ptr:error, ptr:*github.com/tmpim/casket.Instance, G:github.com/tmpim/casket.instances, E:*github.com/tmpim/casket.Instance, G:github.com/tmpim/casket.started, Instance.casketfileInput, Instance.context, Instance.OnFirstStartup, Instance.OnStartup, Instance.OnRestart, Instance.OnRestartFailed, Instance.OnShutdown, Instance.OnFinalShutdown, Instance.Storage
 //@   at call dynamic#1 do nRestart = nRestart + 1
 //@   at call dynamic#2 do nShut = nShut + 1
-//@   at call startWithListenerFds assert [restart_callbacks_first] nRestart == len(i.OnRestart) && nStop == 0 && nShut == 0
+//@   at call startWithListenerFds before [restart_callbacks_first] nRestart == len(i.OnRestart) && nStop == 0 && nShut == 0
 //@   at call (*Instance).Stop assert [old_stops_after_new_started] nStart == 1 && nShut == 0
 //@   at call startWithListenerFds before [successor_shares_the_wait_group_of_its_lineage] arg1 != nil && arg1.wg == i.wg
 //@   at call startWithListenerFds before [successor_is_a_new_instance_with_storage_of_its_own] arg1 != i && arg1.Storage != nil && arg1.Storage != old(i.Storage) && i.Storage == old(i.Storage)
@@ -271,6 +282,8 @@ package casket
 //@   modifies ghost:hooksPurged
 //@   ensures hooksPurged == 0
 //@ func (*Instance).Restart
+//@   requires forall(k, 0, len(instances), instances[k] != nil && instances[k].wg != nil)
+//@   ensures forall(k, 0, len(instances), instances[k] != nil && instances[k].wg != nil)
 //@   requires i != nil && i.wg != nil
 //@   modifies ghost:hooksPurged, ptr:error, ptr:*github.com/tmpim/casket.Instance
 //@   ensures (result1 == nil ==> hooksPurged == 0) && (result1 != nil ==> hooksPurged == old(hooksPurged))
@@ -293,6 +306,7 @@ package casket
 //@   at call (*Instance).Restart cover [reload_runs_in_the_signal_loop_itself_one_at_a_time] hooksPurged == 1
 //@   modifies ghost:hooksPurged, ghost:savedHooks, ptr:error, ptr:*github.com/tmpim/casket.Instance, G:github.com/tmpim/casket.instances, E:*github.com/tmpim/casket.Instance
 //@   loop 1 invariant [hooks_intact_between_signals] hooksPurged == 0
+//@   loop 1 invariant [instance_list_stays_live] forall(k, 0, len(instances), instances[k] != nil && instances[k].wg != nil)
 
 //@ unit instance_stop frames=on props=C16,C08 filter=`casket\.Instance\)\.Stop$`
 //@ // representation invariant of the instance list: every entry is a live *Instance (assumed at entry, re-established at every exit that changed state)
@@ -301,6 +315,7 @@ package casket
 //@ // to stop is logged): Restart treats an error from it as a failed reload although the successor is already live.
 //@ define listed() bool = exists(k, 0, len(instances), instances[k] == i)
 //@ func (*Instance).Stop
+//@   ensures [list_entries_stay_live] forall(k, 0, len(instances), instances[k] != nil && instances[k].wg != nil)
 //@   requires i != nil
 //@   modifies G:github.com/tmpim/casket.instances, E:*github.com/tmpim/casket.Instance, ghost:held
 //@   ensures [stop_reports_no_error] result == nil
@@ -422,11 +437,13 @@ package casket
 //@ func executeDirectives
 //@   requires inst != nil
 //@   requires inst != nil
-//@   modifies Instance.casketfileInput, Instance.context, Instance.OnFirstStartup, Instance.OnStartup, Instance.OnRestart, Instance.OnRestartFailed, Instance.OnShutdown, Instance.OnFinalShutdown, Instance.Storage
+//@   modifies Instance.casketfileInput, Instance.context, Instance.OnFirstStartup, Instance.OnStartup, Instance.OnRestart, Instance.OnRestartFailed, Instance.OnShutdown, Instance.OnFinalShutdown, Instance.Storage, MV:map[int]map[string]interface{}, MD:map[int]map[string]interface{}, MV:map[string]interface{}, MD:map[string]interface{}
 //@   ensures forallT(o, *Instance, o != inst ==> (o.casketfileInput == old(o.casketfileInput) && o.context == old(o.context)))
+//@   ensures [callbacks_registered_on_the_given_instance_only] unchanged_except("Instance.OnRestart", inst) && unchanged_except("Instance.OnRestartFailed", inst) && unchanged_except("Instance.OnShutdown", inst)
 //@ func ValidateAndExecuteDirectives
 //@   requires cdyfile != nil && (justValidate || inst != nil)
-//@   modifies Instance.casketfileInput, Instance.context, Instance.OnFirstStartup, Instance.OnStartup, Instance.OnRestart, Instance.OnRestartFailed, Instance.OnShutdown, Instance.OnFinalShutdown, Instance.Storage
+//@   modifies Instance.casketfileInput, Instance.context, Instance.OnFirstStartup, Instance.OnStartup, Instance.OnRestart, Instance.OnRestartFailed, Instance.OnShutdown, Instance.OnFinalShutdown, Instance.Storage, MV:map[int]map[string]interface{}, MD:map[int]map[string]interface{}, MV:map[string]interface{}, MD:map[string]interface{}
+//@   ensures [a_start_registers_callbacks_on_its_own_instance_only] !justValidate ==> (unchanged_except("Instance.OnRestart", inst) && unchanged_except("Instance.OnRestartFailed", inst) && unchanged_except("Instance.OnShutdown", inst))
 //@   ensures [validation_leaves_the_callers_instance_alone] (justValidate && inst != nil) ==> (inst.casketfileInput == old(inst.casketfileInput) && inst.context == old(inst.context))
 //@   at call executeDirectives before [same_steps_in_both_modes_on_the_chosen_instance] arg0 != nil && arg4 == justValidate && (justValidate ==> arg0 != old(inst)) && (!justValidate ==> arg0 == old(inst))
 
